@@ -7,6 +7,8 @@ typedef struct error_context_s {
     control_stack_t *save_csp;
     object_t *save_command_giver; 
     svalue_t *save_sp;
+    int save_load_depth;                 /* load_object() nesting guard */
+    object_t *save_restrict_destruct;    /* destruct_object() restriction guard */
     struct error_context_s *save_context;
 } error_context_t;
 
